@@ -25,4 +25,5 @@ void   verif_out_str(const char *name, const char *s);
 void   verif_note(const char *text);
 void   verif_stop(void);
 void   verif_log_accesses(int on);
+void   verif_need_module(void);                        // native runs: make sure a Colvars module + stub proxy exist (cvm::error needs them); interpreter: no-op, cvm::error is modelled
 }
